@@ -1,5 +1,5 @@
 (* C05 -- Lifted jit/remat/cond/switch/while_loop/map_variables act like the plain code. *)
-From Flaxm Require Import Lib.Harness Model.Filters Model.Linen Model.Lift Proofs.Lift Proofs.Linen Proofs.LinenInit Proofs.LinenChild.
+From Flaxm Require Import Lib.Harness Model.Filters Model.Linen Model.Lift Proofs.Lift Proofs.Linen Proofs.LinenInit Proofs.LinenChild Model.LiftCtl Proofs.LiftCtl.
 
 (* lift.pack, the building block of every lifted transform, for ANY transformed function (body), filters and variables: *)
 
@@ -58,6 +58,68 @@ Theorem C05_writes_stay_below_the_scope : forall ev p fuel cls q x s y s',
   run_call fuel ev cls (p ++ q) x s = Ok (y, s') -> forall c Q M, is_prefix p Q = false -> get_var (s_vars s') c Q M = get_var (s_vars s) c Q M.
 Proof. exact run_call_outside. Qed.
 Print Assumptions C05_writes_stay_below_the_scope.
+
+(* ---- lift.cond / lift.switch / lift.while_loop (Model/LiftCtl.v) ----
+   cveq: the variables of two scopes agree entry by entry; cwf: names pairwise different; wb: a function written against the
+   Scope API (depends on mutability pointwise, leaves immutable collections alone, never deletes a variable) *)
+
+(* a successful lifted switch with the default variables=True is the selected branch run on the scope itself: same result,
+   same variables afterwards -- whatever the other branches are (they only have to trace and agree in structure) *)
+Theorem C05_switch_is_selected_branch : forall Y bs idx om xs y xs' b0,
+  lift_switch Y bs idx (FBool true) om xs = POk Y y xs' -> cwf xs -> wb Y (nth (Nat.min idx (length bs - 1)) bs b0) ->
+  exists w, nth (Nat.min idx (length bs - 1)) bs b0 xs om = Some (y, w) /\ cveq xs' w.
+Proof. exact switch_transparent. Qed.
+Print Assumptions C05_switch_is_selected_branch.
+Theorem C05_cond_is_if : forall Y (pred : bool) ft ff om xs y xs',
+  lift_cond Y pred ft ff (FBool true) om xs = POk Y y xs' -> cwf xs -> wb Y (if pred then ft else ff) ->
+  exists w, (if pred then ft else ff) xs om = Some (y, w) /\ cveq xs' w.
+Proof. exact cond_transparent. Qed.
+Print Assumptions C05_cond_is_if.
+(* collections the branches cannot mutate (not selected by `variables`, or immutable in the caller) stay untouched *)
+Theorem C05_switch_frame : forall Y bs idx vf om xs y xs' c,
+  lift_switch Y bs idx vf om xs = POk Y y xs' -> inner_mutable om [vf] (fun _ => true) c = false -> cv_get c xs' = cv_get c xs.
+Proof. exact switch_frame. Qed.
+Print Assumptions C05_switch_frame.
+
+(* while_loop with broadcast_variables=True equals the Python loop on the scope in which the body may mutate exactly the
+   carried collections the caller may mutate: same final carry, same variables afterwards; for every condition and body that
+   observe variables entry by entry and leave immutable collections alone, every trip count *)
+Theorem C05_while_is_python_loop : forall C cond_fn body_fn,
+  (forall v v' m c, cveq v v' -> cond_fn v m c = cond_fn v' m c) ->
+  (forall v v' m m' c, cveq v v' -> (forall x, m x = m' x) ->
+     match body_fn v m c, body_fn v' m' c with
+     | Some (c1, w), Some (c2, w') => c1 = c2 /\ cveq w w'
+     | None, None => True
+     | _, _ => False
+     end) ->
+  (forall v m c c1 w, body_fn v m c = Some (c1, w) -> forall col k, m col = false -> cv_entry w col k = cv_entry v col k) ->
+  forall om cf xs, cwf xs -> forall fuel (c0 c : C) xs',
+  lift_while C cond_fn body_fn fuel om cf (FBool true) xs c0 = Some (POk C c xs') ->
+  exists cur, ploop C cond_fn body_fn fuel (fun col => om col && in_filter cf col) xs c0 = Some (Some (c, cur)) /\ cveq xs' cur.
+Proof. exact while_is_loop. Qed.
+Print Assumptions C05_while_is_python_loop.
+(* ... in particular for every program of the statement language the correspondence check runs on the real lift.while_loop *)
+Theorem C05_while_is_python_loop_for_programs : forall cond limit body fuel om cf xs c0 c xs', cwf xs ->
+  lift_while Z (kcond cond limit) (krun body) fuel om cf (FBool true) xs c0 = Some (POk Z c xs') ->
+  exists cur, ploop Z (kcond cond limit) (krun body) fuel (fun col => om col && in_filter cf col) xs c0 = Some (Some (c, cur)) /\ cveq xs' cur.
+Proof. exact kwhile_is_loop. Qed.
+Print Assumptions C05_while_is_python_loop_for_programs.
+Theorem C05_programs_are_well_behaved : forall ss c0, wb Z (fun xs m => krun ss xs m c0).
+Proof. exact krun_wb. Qed.
+Print Assumptions C05_programs_are_well_behaved.
+(* whatever the filters and the body: collections that are not carried, or that the caller cannot mutate, stay untouched *)
+Theorem C05_while_frame : forall C cond_fn body_fn om cf xs fuel bf (c0 c : C) xs' col,
+  lift_while C cond_fn body_fn fuel om cf bf xs c0 = Some (POk C c xs') -> om col && in_filter cf col = false -> cv_get col xs' = cv_get col xs.
+Proof. exact while_frame. Qed.
+Print Assumptions C05_while_frame.
+(* non-vacuity: a three-trip loop that accumulates the carry into a carried collection and reads a broadcast one *)
+Example C05_while_example :
+  let xs : cvars := [(1%N, [(NExp 3, VLeaf (SVec [2%Z]))]); (2%N, [(NExp 1, VLeaf (SVec [0%Z]))])] in
+  let body := [KPut 2 1 (XAdd (XVar 2 1) (XMul XCarry (XVar 1 3))); KCarry (XAdd XCarry (XConst 1))] in
+  cwf xs /\
+  lift_while Z (kcond XCarry 3) (krun body) 10 (fun _ => true) (FSet [2%N]) (FBool true) xs 0%Z =
+    Some (POk Z 3%Z [(1%N, [(NExp 3, VLeaf (SVec [2%Z]))]); (2%N, [(NExp 1, VLeaf (SVec [6%Z]))])]).
+Proof. split; [split; repeat constructor; simpl; intuition discriminate|vm_compute; reflexivity]. Qed.
 
 Example C05_example :
   let xs : cvars := [(1%N, [(NExp 1, VLeaf (SVec [1%Z]))]); (2%N, [(NExp 2, VLeaf (SVec [2%Z]))]); (3%N, [(NExp 3, VLeaf (SVec [3%Z]))])] in
